@@ -314,6 +314,28 @@ def load_store_corpus():
     return out
 
 
+def store_of_load_corpus():
+    """a value loaded from a place and stored back (word store, byte store, storage), at the same place and at
+    neighbouring ones, with constant and symbolic addresses, with an access in between (the front end removes a
+    store of the value just loaded; a byte store is not such a store)"""
+    out = []
+    for tail in ("", " PUSH1 0x1 ADD", " DUP1 MLOAD"):
+        for st in ("MSTORE", "MSTORE8"):
+            out.append("DUP1 MLOAD DUP2 %s%s" % (st, tail))
+            out.append("DUP1 MLOAD DUP2 PUSH1 0x1 ADD %s%s" % (st, tail))
+            out.append("DUP1 MLOAD DUP2 PUSH1 0x1f ADD %s%s" % (st, tail))
+            out.append("DUP1 MLOAD DUP3 DUP3 MSTORE DUP2 %s%s" % (st, tail))
+            for a in (0, 1, 0x1f, 0x20, 0x40):
+                out.append("PUSH1 0x%x MLOAD PUSH1 0x%x %s%s" % (a, a, st, tail))
+                out.append("PUSH1 0x%x MLOAD PUSH1 0x%x %s%s" % (a, a + 31, st, tail))
+                out.append("PUSH1 0x%x MLOAD PUSH1 0x%x %s%s" % (a + 31, a, st, tail))
+        out.append("DUP1 SLOAD DUP2 SSTORE%s" % tail)
+        out.append("DUP1 SLOAD DUP3 DUP3 SSTORE DUP2 SSTORE%s" % tail)
+        out.append("PUSH1 0x3 SLOAD PUSH1 0x3 SSTORE%s" % tail)
+        out.append("PUSH1 0x3 SLOAD PUSH1 0x4 SSTORE%s" % tail)
+    return out
+
+
 def cse_corpus():
     """blocks that compute the same expression twice (the front end unifies the copies and records a renaming),
     with and without a store of a computed value afterwards"""
